@@ -565,11 +565,12 @@ class World:
                 return False, None
             ib = nb(IDN[op[1]])
             if kind == 'delkey':
-                return True, lambda: kc.del_key(enc.Name.from_bytes(k))
+                # (the name as a one-shot iterator of components - a documented form of a name; the other operations use lists)
+                return True, lambda: kc.del_key(c for c in enc.Name.from_bytes(k))
             if kind == 'delkey2':
                 return True, lambda: kc[ib].del_key(enc.Name.from_bytes(k))
             if kind == 'defkey':
-                return True, lambda: kc[ib].set_default_key(enc.Name.from_bytes(k))
+                return True, lambda: kc[ib].set_default_key(iter(enc.Name.from_bytes(k)))
             if kind == 'signL':
                 return True, lambda: kc.get_signer({'key': enc.Name.from_bytes(k), 'key_locator': '/custom/locator'})
             if len(self.ref[ib]['keys'][k]['certs']) >= 2:
@@ -581,7 +582,7 @@ class World:
                 return False, None
             ib = nb(IDN[op[1]])
             if kind == 'delcert':
-                return True, lambda: kc.del_cert(enc.Name.from_bytes(c))
+                return True, lambda: kc.del_cert(x for x in enc.Name.from_bytes(c))
             if kind == 'delcert2':
                 return True, lambda: kc[ib][k].del_cert(enc.Name.from_bytes(c))
             return True, lambda: kc[ib][k].set_default_cert(enc.Name.from_bytes(c))
